@@ -65,6 +65,7 @@ type AssertAt struct {
 	Callee string // substring of callee name
 	Ord    int    // -1: every call
 	Clause Clause
+	Assume bool // assume-at: an explicit, reported assumption at the call site (invariant of an unmodelled container)
 }
 
 type CallbackSpec struct { // contract of a function-typed parameter
@@ -107,6 +108,7 @@ type Contract struct {
 	Trusted       bool
 	External      bool
 	Inline        bool
+	AbstractAll   bool // abstract-all: like abstract-calls, and no callee body is read unless named by call-inline
 	AbstractCalls bool
 	MayPanic      bool
 	AllowSend     bool
@@ -165,9 +167,9 @@ type Lemma struct {
 	File   string
 }
 
-var clauseKW = []string{"assumes", "stable-types", "stable", "loop-call", "requires", "ensures-on-panic", "ensures", "modifies", "loop", "assert-at", "trusted", "inline", "abstract-calls", "may-panic",
+var clauseKW = []string{"assume-at", "assumes", "stable-types", "stable", "loop-call", "requires", "ensures-on-panic", "ensures", "modifies", "loop", "assert-at", "trusted", "inline", "abstract-all", "abstract-calls", "may-panic",
 	"allow-send", "arith", "let", "noalloc", "call-inline", "call-abstract", "callback", "path-limit", "implements", "var", "call", "assume", "assert", "havoc"}
-var topKW = []string{"func", "spec", "ghost", "axiom", "lemma", "package", "table"}
+var topKW = []string{"func", "spec", "ghost", "axiom", "lemma", "package", "table", "immutable"}
 
 type rawItem struct {
 	head  string
@@ -297,6 +299,18 @@ func (w *World) loadContractFile(path string, pkg *types.Package, goFile bool) e
 				return fmt.Errorf("%s:%d: ghost var <name> <type>", path, it.line)
 			}
 			w.ghosts[f[2]] = &GhostVar{Name: f[2], Type: strings.Join(f[3:], " "), Pkg: pkg}
+		case "immutable":
+			// immutable <Type>.<field>: an unexported field written only while its object is being constructed;
+			// checked mechanically (checkImmutable) and then kept by every havoc
+			if pkg == nil {
+				continue
+			}
+			f := strings.Fields(it.head)
+			if len(f) != 2 || !strings.Contains(f[1], ".") {
+				return fmt.Errorf("%s:%d: immutable <Type>.<field>", path, it.line)
+			}
+			i := strings.LastIndex(f[1], ".")
+			w.immutables = append(w.immutables, Immutable{Pkg: pkg, Type: f[1][:i], Field: f[1][i+1:], File: path, Line: it.line})
 		case "axiom":
 			src := strings.TrimSpace(strings.TrimPrefix(it.head, "axiom"))
 			for _, l := range it.lines {
@@ -517,7 +531,7 @@ func (w *World) parseFuncContract(it rawItem, pkg *types.Package, external bool)
 			} else {
 				return fmt.Errorf("loop clause: expected invariant or decreases")
 			}
-		case "assert-at":
+		case "assert-at", "assume-at":
 			// assert-at[tags] call <callee>[#k]: expr
 			tags, r2 := parseTags(rest)
 			r2 = strings.TrimSpace(strings.TrimPrefix(r2, "call"))
@@ -540,7 +554,7 @@ func (w *World) parseFuncContract(it rawItem, pkg *types.Package, external bool)
 			if len(atags) == 0 {
 				atags = ftags
 			}
-			c.AssertAts = append(c.AssertAts, AssertAt{Callee: callee, Ord: k, Clause: Clause{Tags: atags, Expr: x, Src: src, Ord: len(c.AssertAts)}})
+			c.AssertAts = append(c.AssertAts, AssertAt{Callee: callee, Ord: k, Assume: kw == "assume-at", Clause: Clause{Tags: atags, Expr: x, Src: src, Ord: len(c.AssertAts)}})
 		case "let":
 			i := strings.Index(rest, "=")
 			if i < 0 {
@@ -577,6 +591,9 @@ func (w *World) parseFuncContract(it rawItem, pkg *types.Package, external bool)
 			c.Inline = true
 		case "abstract-calls":
 			c.AbstractCalls = true
+		case "abstract-all":
+			c.AbstractCalls = true
+			c.AbstractAll = true
 		case "may-panic":
 			c.MayPanic = true
 		case "allow-send":
@@ -952,4 +969,122 @@ func renumber(cs []Clause, base int) []Clause {
 		out[i] = c
 	}
 	return out
+}
+
+// Immutable: a declared write-once field
+type Immutable struct {
+	Pkg         *types.Package
+	Type, Field string
+	File        string
+	Line        int
+	Fam         string
+}
+
+// checkImmutables: every declared field must be unexported, and every store to it anywhere in its package must go
+// through an object allocated in the same function (composite literal / new): then no call can change the field of an
+// object that already existed. Returns the violations.
+func (w *World) checkImmutables() []string {
+	var bad []string
+	for i := range w.immutables {
+		im := &w.immutables[i]
+		t := w.resolveType(im.Type, im.Pkg)
+		if t == nil {
+			bad = append(bad, fmt.Sprintf("%s:%d: immutable: unknown type %s", im.File, im.Line, im.Type))
+			continue
+		}
+		st, ok := t.Underlying().(*types.Struct)
+		if !ok {
+			bad = append(bad, fmt.Sprintf("%s:%d: immutable: %s is not a struct", im.File, im.Line, im.Type))
+			continue
+		}
+		idx := -1
+		for k := 0; k < st.NumFields(); k++ {
+			if st.Field(k).Name() == im.Field {
+				idx = k
+			}
+		}
+		if idx < 0 {
+			bad = append(bad, fmt.Sprintf("%s:%d: immutable: no field %s.%s", im.File, im.Line, im.Type, im.Field))
+			continue
+		}
+		if st.Field(idx).Exported() {
+			bad = append(bad, fmt.Sprintf("%s:%d: immutable: %s.%s is exported (other packages may write it)", im.File, im.Line, im.Type, im.Field))
+			continue
+		}
+		im.Fam = structFam(t, im.Field)
+		sp := w.prog.Package(im.Pkg)
+		if sp == nil {
+			bad = append(bad, fmt.Sprintf("%s:%d: immutable: package not built", im.File, im.Line))
+			continue
+		}
+		var fns []*ssa.Function
+		seen := map[*ssa.Function]bool{}
+		var addFn func(f *ssa.Function)
+		addFn = func(f *ssa.Function) {
+			if f == nil || seen[f] {
+				return
+			}
+			seen[f] = true
+			fns = append(fns, f)
+			for _, an := range f.AnonFuncs {
+				addFn(an)
+			}
+		}
+		for _, m := range sp.Members {
+			switch x := m.(type) {
+			case *ssa.Function:
+				addFn(x)
+			case *ssa.Type:
+				for _, tt := range []types.Type{x.Type(), types.NewPointer(x.Type())} {
+					ms := w.prog.MethodSets.MethodSet(tt)
+					for k := 0; k < ms.Len(); k++ {
+						if mf, ok := ms.At(k).Obj().(*types.Func); ok {
+							addFn(w.prog.FuncValue(mf))
+						}
+					}
+				}
+			}
+		}
+		for _, f := range fns {
+			if f.Pkg != sp {
+				continue
+			}
+			for _, b := range f.Blocks {
+				for _, ins := range b.Instrs {
+					fa, ok := ins.(*ssa.FieldAddr)
+					if !ok || fa.Field != idx {
+						continue
+					}
+					pt, ok := fa.X.Type().Underlying().(*types.Pointer)
+					if !ok || !types.Identical(pt.Elem(), t) {
+						continue
+					}
+					if fa.Referrers() == nil {
+						continue
+					}
+					for _, r := range *fa.Referrers() {
+						stn, ok := r.(*ssa.Store)
+						if !ok || stn.Addr != fa {
+							if _, isLoad := r.(*ssa.UnOp); isLoad {
+								continue
+							}
+							if _, isDbg := r.(*ssa.DebugRef); isDbg {
+								continue
+							}
+							if _, isFA := r.(*ssa.FieldAddr); isFA {
+								continue // address of a sub-field: only for struct-typed fields; reject below if stored through
+							}
+							bad = append(bad, fmt.Sprintf("%s: immutable %s.%s: its address escapes in %s", w.fset.Position(r.Pos()), im.Type, im.Field, f))
+							continue
+						}
+						if al, ok := fa.X.(*ssa.Alloc); ok && al.Parent() == f {
+							continue // initialisation of an object allocated right here
+						}
+						bad = append(bad, fmt.Sprintf("%s: immutable %s.%s is assigned in %s", w.fset.Position(stn.Pos()), im.Type, im.Field, f))
+					}
+				}
+			}
+		}
+	}
+	return bad
 }
